@@ -242,6 +242,7 @@ impl Puppet {
         let script = SCRIPT.with(|s| s.borrow().clone()).ok_or_else(|| anyhow!("no script"))?;
         let watch = WATCH.with(|w| w.borrow().clone());
         let me = env.contract.address.to_string();
+        let reply_ok: Option<bool> = reply.as_ref().map(|r| r.ok);
         let own_store: Dump = deps.storage.range(None, None, Order::Ascending).collect();
         let bundle = make_bundle(&deps.as_ref(), &env, &watch);
         let rec = TraceRec {
@@ -269,7 +270,11 @@ impl Puppet {
                 WriteOp::Remove(k) => deps.storage.remove(k),
             }
         }
-        if nd.fail {
+        let cond_fail = match (nd.fail_when, &reply_ok) {
+            (1, Some(true)) | (2, Some(false)) => true,
+            _ => false,
+        };
+        if nd.fail || cond_fail {
             return Err(anyhow!("scripted failure at node {}", idx));
         }
         let mut resp = Response::new();
